@@ -15,7 +15,17 @@ def run(name, prop, seed, table=None):
                      "error": r.get("error")})
         if r.get("error"):
             return {"coverage": {"bounded_crosscheck": runs}, "inconclusive": "enumerator crashed: " + r["error"][:200]}
-        for v in r.get("violations", [])[:1]:
-            viol.append({"unit": "replay", "clause": "bounded." + c[0], "message": "bounded enumeration over the real crate found a failing input",
+        # an enumerator may class its failing inputs (`class`): one violation per class, clause id bounded.<cmd>.<class>, so that a
+        # listed known finding suppresses exactly its class
+        vs = r.get("violations", [])
+        if vs and isinstance(vs[0], dict) and "class" in vs[0]:
+            firsts = {}
+            for v in vs:
+                firsts.setdefault(v["class"], v)
+            picked = [("bounded." + c[0] + "." + k, v) for k, v in sorted(firsts.items())]
+        else:
+            picked = [("bounded." + c[0], v) for v in vs[:1]]
+        for cid, v in picked:
+            viol.append({"unit": "replay", "clause": cid, "message": "bounded enumeration over the real crate found a failing input",
                          "fn": None, "rendered": str(v)[:1500], "clause_text": " ".join(c), "where": "replay/src/main.rs", "enum": {"cmd": c, "case": v}})
     return {"coverage": {"label": "BOUNDED cross-check (not counted as discharged)", "runs": runs}, "violations": viol}
